@@ -519,6 +519,10 @@ def collect(t, decls, sorts):
 def _collect_sort(s, sorts):
     if s == REF:
         sorts.add(REF)
+    elif s.startswith('USeq<'):
+        sorts.add(s)
+        inner = s[5:-1]
+        _collect_sort(inner, sorts)
     elif s.startswith('('):
         _, parts = sort_args(s)
         for p in parts:
@@ -574,6 +578,8 @@ def str_lit(s):
 
 
 def sort_smt(s, dialect):
+    if s.startswith('USeq<'):
+        return qname(s)
     if dialect == 'z3' and s.startswith('(Set '):
         _, (e,) = sort_args(s)
         return '(Array %s Bool)' % sort_smt(e, dialect)
@@ -704,7 +710,62 @@ def lower_filters(terms):
     return out, axioms
 
 
-def script(assertions, dialect='cvc5', outputs=None, logic=None, produce_models=False):
+SEQ_OTHER_OPS = {'seq.++', 'seq.unit', 'seq.empty', 'seq.extract', 'seq.contains', 'seq.at'}
+
+
+def abstract_seqs(terms):
+    """Sound abstraction for refutation only: sequences become an uninterpreted sort with
+    nth/len functions (len >= 0).  Returns None when other sequence operations occur."""
+    if any(uses_op(t, SEQ_OTHER_OPS) for t in terms):
+        return None
+
+    def asort(srt):
+        if srt.startswith('(Seq '):
+            _, (e,) = sort_args(srt)
+            return 'USeq<%s>' % asort(e)
+        if srt.startswith('('):
+            head, parts = sort_args(srt)
+            return '(%s %s)' % (head, ' '.join(asort(p) for p in parts))
+        return srt
+    lens = {}
+
+    def rec(t):
+        args = [rec(a) for a in t.args]
+        srt = asort(t.sort)
+        if t.op == 'seq.nth':
+            return T('app', args, srt, 'nth<%s>' % args[0].sort)
+        if t.op == 'seq.len':
+            r = T('app', args, INT, 'len<%s>' % args[0].sort)
+            return r
+        if t.op in ('forall', 'exists'):
+            return T(t.op, args, srt, tuple((n, asort(s_)) for n, s_ in t.data))
+        if t.op == 'set.filter':
+            return T(t.op, args, srt, (t.data[0], asort(t.data[1])))
+        return T(t.op, args, srt, t.data)
+    out = [rec(t) for t in terms]
+    # len >= 0 for every abstract sequence sort in use
+    sorts = set()
+    for t in out:
+        stack = [t]
+        while stack:
+            x = stack.pop()
+            if x.op == 'app' and isinstance(x.data, str) and x.data.startswith('len<'):
+                sorts.add(x.args[0].sort)
+            stack.extend(x.args)
+    axioms = []
+    for srt in sorted(sorts):
+        v = Var('useq_s', srt)
+        axioms.append(ForAll([v], Ge(T('app', (v,), INT, 'len<%s>' % srt), IntC(0))))
+    return axioms + out
+
+
+def script(assertions, dialect='cvc5', outputs=None, logic=None, produce_models=False, useq=False):
+    if useq:
+        a2 = abstract_seqs(list(assertions))
+        if a2 is None:
+            raise Unsupported('sequence abstraction not applicable')
+        assertions = a2
+        outputs = None
     if any(uses_op(t, {'set.filter'}) for t in list(assertions) + list((outputs or {}).values())):
         names = list((outputs or {}).keys())
         lowered, axioms = lower_filters(list(assertions) + [outputs[n] for n in names])
@@ -724,8 +785,8 @@ def script(assertions, dialect='cvc5', outputs=None, logic=None, produce_models=
                      else '(set-logic ALL)')
     if produce_models:
         lines.append('(set-option :produce-models true)')
-    for s in sorted(sorts):
-        lines.append('(declare-sort %s 0)' % s)
+    for s in sorted(sorts, key=lambda x: (len(x), x)):
+        lines.append('(declare-sort %s 0)' % (qname(s) if s.startswith('USeq<') else s))
     for (kind, name), (argsorts, rs) in sorted(decls.items()):
         lines.append('(declare-fun %s (%s) %s)' % (
             qname(name), ' '.join(sort_smt(s, dialect) for s in argsorts),
